@@ -62,7 +62,7 @@ fn ev(token: &soroban_sdk::xdr::ScAddress, topics: Vec<ScVal>, data: ScVal) -> E
 const STANDARD_KINDS: &[&str] = &["transfer", "mint", "burn", "approve", "set_admin", "minter_added", "minter_removed", "clawback", "set_authorized"];
 
 pub fn run(ctx: &Ctx, rep: &mut Report) {
-    let total = ctx.universes(320, 20000);
+    let total = ctx.universes(960, 60000);
     for uni in ctx.my_universes(total) {
         let mut rng = ctx.rng_for(uni);
         rep.begin_universe(uni);
